@@ -23,7 +23,7 @@ Definition backend_maxl (backend : nat) : nat :=
 
 Definition write_file (maxl : nat) (f : fs) (p : path) (content : string) (perm : N) : fres fs :=
   fdo r <- openfile maxl maxl f p perm;
-  let (f', i) := r in FOk (upd f' i (fun n => with_data n content)).
+  let (f', i) := r in FOk (upd f' i (fun n => trunc_write n content)).
 
 Definition pkg_file (maxl : nat) (f : fs) (p : path) (content : string) (perm : N) : fres fs :=
   fdo r <- openfile maxl maxl f p perm;
